@@ -54,10 +54,14 @@ def expect_case(chain: str, kind: str, x: Any) -> Any:
         if kind == "uint":
             return ("uint", x)
     if chain == "string(x)" and kind == "bytes":
+        t = utf8_decode(bytes(x))
         try:
-            return ("string", x.decode("utf-8"))
+            py = x.decode("utf-8")
         except UnicodeDecodeError:
-            return ERR
+            py = None
+        if t != py:
+            raise common.HarnessError(f"own UTF-8 decoder and Python's strict codec disagree on {bytes(x)!r}")
+        return ERR if t is None else ("string", t)
     if chain == "bytes(x)" and kind == "string":
         return ("bytes", x.encode("utf-8").hex())
     if chain in ("int(x)", "uint(x)", "double(x)", "timestamp(x)", "duration(x)") and kind == "garbage":
@@ -69,6 +73,57 @@ def expect_case(chain: str, kind: str, x: Any) -> Any:
         n = int(x)
         return ("uint", n) if 0 <= n <= values.U_MAX else ERR
     raise ValueError((chain, kind))
+
+
+def utf8_decode(b: bytes):
+    """RFC 3629 table 3-7 decoder written out by hand: the text, or None for any ill-formed sequence (overlong forms, encoded
+    surrogates U+D800..DFFF, code points above U+10FFFF, stray or missing continuation bytes, lead bytes C0/C1/F5..FF)."""
+    out = []
+    i, n = 0, len(b)
+    while i < n:
+        c = b[i]
+        if c < 0x80:
+            out.append(chr(c)); i += 1; continue
+        if 0xC2 <= c <= 0xDF:
+            need, lo, hi, cp = 1, 0x80, 0xBF, c & 0x1F
+        elif 0xE0 <= c <= 0xEF:
+            need, cp = 2, c & 0x0F
+            lo, hi = (0xA0, 0xBF) if c == 0xE0 else (0x80, 0x9F) if c == 0xED else (0x80, 0xBF)
+        elif 0xF0 <= c <= 0xF4:
+            need, cp = 3, c & 0x07
+            lo, hi = (0x90, 0xBF) if c == 0xF0 else (0x80, 0x8F) if c == 0xF4 else (0x80, 0xBF)
+        else:
+            return None
+        if i + need > n - 1:
+            return None
+        for k in range(1, need + 1):
+            x = b[i + k]
+            l, h = (lo, hi) if k == 1 else (0x80, 0xBF)
+            if not (l <= x <= h):
+                return None
+            cp = (cp << 6) | (x & 0x3F)
+        out.append(chr(cp))
+        i += need + 1
+    return "".join(out)
+
+
+def _ill_formed_utf8():
+    """Byte strings built from valid text with exactly one ill-formed sequence of a named class spliced in."""
+    from vf import values as V
+
+    bad = st.one_of(
+        st.tuples(st.just(0xED), st.integers(0xA0, 0xBF), st.integers(0x80, 0xBF)).map(bytes),                      # encoded surrogate
+        st.tuples(st.tuples(st.just(0xED), st.integers(0xA0, 0xAF), st.integers(0x80, 0xBF)).map(bytes),
+                  st.tuples(st.just(0xED), st.integers(0xB0, 0xBF), st.integers(0x80, 0xBF)).map(bytes)).map(b"".join),  # CESU-8 pair
+        st.tuples(st.sampled_from([0xC0, 0xC1]), st.integers(0x80, 0xBF)).map(bytes),                                  # overlong 2
+        st.tuples(st.just(0xE0), st.integers(0x80, 0x9F), st.integers(0x80, 0xBF)).map(bytes),                          # overlong 3
+        st.tuples(st.just(0xF0), st.integers(0x80, 0x8F), st.integers(0x80, 0xBF), st.integers(0x80, 0xBF)).map(bytes),  # overlong 4
+        st.tuples(st.just(0xF4), st.integers(0x90, 0xBF), st.integers(0x80, 0xBF), st.integers(0x80, 0xBF)).map(bytes),  # > U+10FFFF
+        st.tuples(st.integers(0xF5, 0xFF)).map(bytes),                                                                # invalid lead
+        st.tuples(st.integers(0x80, 0xBF)).map(bytes),                                                                # stray continuation
+        st.sampled_from([b"\xc3", b"\xe2\x82", b"\xf0\x9f\x98", b"\xe2", b"\xf0\x9f"]),                               # truncated
+    )
+    return st.tuples(V.text(4), bad, V.text(4)).map(lambda t: t[0].encode("utf-8") + t[1] + t[2].encode("utf-8"))
 
 
 def observed(o: Tuple) -> Any:
@@ -117,7 +172,7 @@ def is_nontrivial(chain: str, kind: str, x: Any, off: int, exp: Any) -> bool:
     if kind == "string":
         return any(ord(c) > 127 or c in "\"'\\\n\0" for c in x)
     if kind == "bytes":
-        return any(b > 127 for b in x)
+        return any(b > 127 for b in x)  # (ill-formed input is non-trivial already: the conversion must fail)
     if kind == "timestamp":
         return x < -30610224000 * 10**6 or off != 0 or x in (values.TS_MIN, (values.TS_MAX // 10**6) * 10**6)
     if kind == "duration":
@@ -193,7 +248,7 @@ def plans():
         ("uint(x)", "int", values.int64()),
         ("int(x)", "int", values.int64()),
         ("uint(x)", "uint", values.uint64()),
-        ("string(x)", "bytes", values.binary(8)),
+        ("string(x)", "bytes", values.binary(8) | _ill_formed_utf8()),
         ("bytes(x)", "string", values.text(8)),
         ("int(x)", "garbage", GARBAGE),
         ("uint(x)", "garbage", GARBAGE),
